@@ -32,86 +32,105 @@ def _workspace(of):
 
 
 class Taint:
+    """Origins of a local are a set of tags: 'S' (a source inside this function or its callees, or a labelled field) and parameter
+    indices (the value depends on that parameter).  A parameter is *actual* when some caller passes a labelled value.  A local is
+    labelled iff its origins contain 'S' or an actual parameter.  Return values are therefore context-sensitive (an accessor such as
+    `as_usize` only returns a label to the callers that passed one in); sinks inside a callee and field writes are context-insensitive."""
+
     def __init__(self, fx, label, source_calls=(), source_params=(), source_fields=(), kill=DEFAULT_KILL,
                  kill_calls=(), sanitizers=(), carrier=None):
-        """source_calls: path suffixes (normalised) whose *result* is labelled
-           source_params: (fn path suffix, param index starting at 1)
-           source_fields: (adt-or-variant path suffix, field name): reading it yields the label
-           kill_calls: additional path suffixes whose result is clean
-           sanitizers: path suffixes of workspace/external fns whose result is clean even if args are labelled"""
         self.fx = fx
         self.label = label
-        # type-directed filter: only locals/fields whose type can carry the labelled kind of value are ever labelled
         self.carrier = carrier or (lambda ty: True)
         self._carrier_cache = {}
         self.source_calls = tuple(source_calls)
         self.source_params = tuple(source_params)
         self.source_fields = tuple(source_fields)
         self.kill = tuple(kill) + tuple(kill_calls) + tuple(sanitizers)
-        self.t = defaultdict(set)       # fn id -> set of labelled locals
-        self.fields = set()             # (of, name) labelled fields
-        self.ret = set()                # fn ids whose return value is labelled
-        self.why = {}                   # (fid, local) -> short provenance string (first reason)
-        self.alias = {}                 # fid -> {ptr local: pointee local}
-        self._closure_params = {}
+        self.o = {}                      # fn id -> {local: set(tags)}
+        self.actual = defaultdict(set)   # fn id -> set of actual parameter indices
+        self.fields = set()              # (of, name) labelled fields
+        self.why = {}                    # (fid, local) -> provenance
+        self.alias = {}
+        self._upvars = defaultdict(set)  # closure id -> captured indices that are labelled
+        self.t = _View(self)
         self.run()
 
     # ---------------------------------------------------------------- helpers
-    def _field_src(self, of, n):
-        for sfx, fn_ in self.source_fields:
-            if n == fn_ and (of == sfx or of.endswith("::" + sfx) or of.endswith(sfx)):
-                return True
-        return False
-
-    def place_tainted(self, fid, p):
-        if p is None:
-            return False
-        if p["l"] in self.t[fid]:
-            return True
-        for e in (p.get("p") or []):
-            if isinstance(e, dict) and "n" in e and _workspace(e["of"]):
-                if (e["of"], e["n"]) in self.fields or self._field_src(e["of"], e["n"]):
-                    return True
-        return False
-
-    def op_tainted(self, fid, op):
-        return self.place_tainted(fid, lib.op_place(op))
-
     def _carries(self, ty):
         c = self._carrier_cache.get(ty)
         if c is None:
             c = self._carrier_cache[ty] = bool(self.carrier(ty))
         return c
 
-    def _mark(self, fid, l, why):
-        if not self._carries(self.fx.fns[fid].locals[l]["ty"]):
+    def _field_src(self, of, n):
+        for sfx, fn_ in self.source_fields:
+            if n == fn_ and (of == sfx or of.endswith("::" + sfx) or of.endswith(sfx)):
+                return True
+        return False
+
+    def _eff(self, fid, tags):
+        if not tags:
             return False
-        if l not in self.t[fid]:
-            self.t[fid].add(l)
+        if "S" in tags:
+            return True
+        act = self.actual.get(fid)
+        return bool(act) and any(t in act for t in tags if t != "S")
+
+    def place_orig(self, fid, p):
+        if p is None:
+            return frozenset()
+        tags = self.o[fid].get(p["l"])
+        tags = set(tags) if tags else set()
+        for e in (p.get("p") or []):
+            if isinstance(e, dict) and "n" in e and _workspace(e["of"]):
+                if (e["of"], e["n"]) in self.fields or self._field_src(e["of"], e["n"]):
+                    tags.add("S")
+        return tags
+
+    def op_orig(self, fid, op):
+        return self.place_orig(fid, lib.op_place(op))
+
+    def place_tainted(self, fid, p):
+        return self._eff(fid, self.place_orig(fid, p))
+
+    def op_tainted(self, fid, op):
+        return self._eff(fid, self.op_orig(fid, op))
+
+    def local_tainted(self, fid, l):
+        return self._eff(fid, self.o[fid].get(l))
+
+    def _add(self, fid, l, tags, why):
+        if not tags or not self._carries(self.fx.fns[fid].locals[l]["ty"]):
+            return False
+        cur = self.o[fid].setdefault(l, set())
+        new = tags - cur
+        if new:
+            cur |= new
             self.why.setdefault((fid, l), why)
             return True
         return False
 
-    def _mark_place(self, fid, p, why):
-        """label the destination place: a named ADT field labels the field (globally); otherwise the base local"""
+    def _add_place(self, fid, p, tags, why):
         ch = False
+        if not tags:
+            return False
         named = [e for e in (p.get("p") or []) if isinstance(e, dict) and "n" in e and _workspace(e["of"])]
         if named:
             e = named[-1]
             key = (e["of"], e["n"])
-            if key not in self.fields and self._carries(e.get("ty", "")):
+            if key not in self.fields and self._carries(e.get("ty", "")) and self._eff(fid, tags):
                 self.fields.add(key)
+                self._fields_changed = True
                 ch = True
-            # writing through a local temp aggregate also labels the local when it is not a long-lived self/ctx reference
             f = self.fx.fns[fid]
-            ty = f.locals[p["l"]]["ty"]
-            if not ty.startswith("&"):
-                ch |= self._mark(fid, p["l"], why)
+            if not f.locals[p["l"]]["ty"].startswith("&"):
+                ch |= self._add(fid, p["l"], tags, why)
         else:
-            ch |= self._mark(fid, p["l"], why)
+            ch |= self._add(fid, p["l"], tags, why)
             al = self.alias.get(fid, {}).get(p["l"])
             if al is not None and "deref" in (p.get("p") or []):
-                ch |= self._mark(fid, al, why)
+                ch |= self._add(fid, al, tags, why)
         return ch
 
     def _is_source_call(self, pn):
@@ -122,205 +141,6 @@ class Taint:
             return False
         n = lib.norm(pn)
         return any(n.endswith(k) or k in n for k in self.kill)
-
-    # ---------------------------------------------------------------- fixpoint
-    def run(self):
-        fx = self.fx
-        # aliases  _p = &(mut) _x
-        for f in fx.fns.values():
-            al = {}
-            for _, _, s in lib.stmts(f, cleanup=True):
-                if s["k"] == "assign" and s["rv"]["k"] in ("ref", "rawptr") and not s["dst"].get("p") and not s["rv"]["place"].get("p"):
-                    al[s["dst"]["l"]] = s["rv"]["place"]["l"]
-            self.alias[f.id] = al
-        # parameter sources
-        for f in fx.fns.values():
-            for sfx, idx in self.source_params:
-                if lib.pm(f.path, sfx):
-                    self._mark(f.id, idx, "parameter %d of %s" % (idx, f.path))
-        callers = defaultdict(set)
-        work = deque(fx.fns.keys())
-        inq = set(work)
-        nfields = -1
-        rounds = 0
-        while work:
-            fid = work.popleft()
-            inq.discard(fid)
-            f = fx.fns[fid]
-            before_fields = len(self.fields)
-            changed_callees, ret_changed = self._process(f, callers)
-            for c in changed_callees:
-                if c not in inq:
-                    work.append(c)
-                    inq.add(c)
-            if ret_changed:
-                for c in callers.get(fid, ()):
-                    if c not in inq:
-                        work.append(c)
-                        inq.add(c)
-            if len(self.fields) != before_fields:
-                # a newly labelled field can be read anywhere: re-run everything once
-                for g in fx.fns:
-                    if g not in inq:
-                        work.append(g)
-                        inq.add(g)
-            rounds += 1
-            if rounds > 200000:
-                raise RuntimeError("taint fixpoint does not converge")
-
-    def _closure_args(self, f, t):
-        """closure function ids passed (as aggregate values) to this call"""
-        out = []
-        du = getattr(f, "_du", None)
-        for a in t["args"]:
-            p = lib.op_place(a)
-            if p is None:
-                continue
-            ty = f.locals[p["l"]]["ty"]
-            if "{closure@" in ty:
-                # find the aggregate that built it
-                for bi, b in enumerate(f.blocks):
-                    for s in b["stmts"]:
-                        if s["k"] == "assign" and s["dst"]["l"] == p["l"] and s["rv"]["k"] == "agg" and s["rv"].get("ak") == "closure":
-                            out.append((s["rv"]["closure"], s["rv"]["ops"]))
-        return out
-
-    def _process(self, f, callers):
-        fid = f.id
-        changed_callees = set()
-        ret_before = fid in self.ret
-        progress = True
-        it = 0
-        while progress and it < 50:
-            progress = False
-            it += 1
-            for b in f.blocks:
-                for s in b["stmts"]:
-                    if s["k"] != "assign":
-                        continue
-                    rv = s["rv"]
-                    k = rv["k"]
-                    src = False
-                    if k in ("use", "cast", "repeat"):
-                        src = self.op_tainted(fid, rv["op"])
-                    elif k in ("ref", "rawptr", "copy_for_deref", "discr"):
-                        src = self.place_tainted(fid, rv["place"]) and k != "discr"
-                    elif k == "binop":
-                        # comparisons yield booleans: the label does not survive
-                        if rv["op"] in ("Eq", "Ne", "Lt", "Le", "Gt", "Ge", "Cmp"):
-                            src = False
-                        else:
-                            src = self.op_tainted(fid, rv["l"]) or self.op_tainted(fid, rv["r"])
-                    elif k == "unop":
-                        src = self.op_tainted(fid, rv["a"]) and rv["op"] != "PtrMetadata"
-                    elif k == "agg":
-                        if rv.get("ak") == "closure":
-                            src = False
-                        else:
-                            src = any(self.op_tainted(fid, o) for o in rv["ops"])
-                            # labelled operand stored into a named field of an ADT aggregate → label that field
-                            if rv.get("ak") == "adt" and _workspace(rv["adt"]):
-                                for i, o in enumerate(rv["ops"]):
-                                    if self.op_tainted(fid, o) and i < len(rv.get("fields", [])):
-                                        of = rv["adt"] + ("::" + rv["variant"] if self._is_enum(rv["adt"]) else "")
-                                        key = (of, rv["fields"][i])
-                                        if key not in self.fields:
-                                            self.fields.add(key)
-                                            progress = True
-                    if src:
-                        if self._mark_place(fid, s["dst"], "line %s" % s.get("line")):
-                            progress = True
-                t = b["term"]
-                if t["k"] != "call":
-                    continue
-                pn, fr = lib.callee(t)
-                args_t = [self.op_tainted(fid, a) for a in t["args"]]
-                any_t = any(args_t)
-                rid = fr.get("rid") or fr.get("id")
-                res_t = False
-                if pn and self._is_source_call(pn):
-                    res_t = True
-                elif rid in self.fx.fns and not self._killed(pn):
-                    g = self.fx.fns[rid]
-                    callers[rid].add(fid)
-                    for i, at in enumerate(args_t):
-                        if at and i + 1 <= g.argc:
-                            if self._mark(rid, i + 1, "argument %d from %s line %s" % (i, f.path, t.get("line"))):
-                                changed_callees.add(rid)
-                    if rid in self.ret:
-                        res_t = True
-                elif "indirect" in fr:
-                    res_t = any_t
-                else:
-                    if fr.get("rkind") == "virtual" or (fr.get("trait") and "rid" not in fr):
-                        # dyn / unresolved trait call: every workspace impl
-                        for im in self._impls(fr["path"]):
-                            callers[im].add(fid)
-                            g = self.fx.fns[im]
-                            for i, at in enumerate(args_t):
-                                if at and i + 1 <= g.argc:
-                                    if self._mark(im, i + 1, "dyn argument from %s" % f.path):
-                                        changed_callees.add(im)
-                            if im in self.ret:
-                                res_t = True
-                    if not self._killed(pn):
-                        res_t = res_t or any_t
-                    # higher-order: labelled receiver/arguments reach the closure's parameters; its result the destination
-                    for cid, caps in self._closure_args(f, t):
-                        if cid in self.fx.fns:
-                            g = self.fx.fns[cid]
-                            callers[cid].add(fid)
-                            if any_t:
-                                for i in range(2, g.argc + 1):
-                                    if self._mark(cid, i, "closure parameter via %s (%s line %s)" % (lib.norm(pn or "?").rsplit("::", 1)[-1], f.path, t.get("line"))):
-                                        changed_callees.add(cid)
-                            if cid in self.ret and not self._killed(pn):
-                                res_t = True
-                    if any_t and pn and any(lib.norm(pn).endswith(m) for m in MUTATORS) and t["args"]:
-                        p0 = lib.op_place(t["args"][0])
-                        if p0 is not None and not args_t[0]:
-                            tgt = self.alias.get(fid, {}).get(p0["l"], p0["l"])
-                            if self._mark(fid, tgt, "mutated by %s line %s" % (lib.norm(pn).rsplit("::", 1)[-1], t.get("line"))):
-                                progress = True
-                if res_t:
-                    if self._mark_place(fid, t["dst"], "result of %s line %s" % (lib.norm(pn or "indirect"), t.get("line"))):
-                        progress = True
-            # captured upvars of closures: a closure created here captures labelled locals → label the closure's upvar field reads
-            for b in f.blocks:
-                for s in b["stmts"]:
-                    if s["k"] == "assign" and s["rv"]["k"] == "agg" and s["rv"].get("ak") == "closure":
-                        cid = s["rv"]["closure"]
-                        if cid in self.fx.fns:
-                            g = self.fx.fns[cid]
-                            for i, o in enumerate(s["rv"]["ops"]):
-                                if self.op_tainted(fid, o):
-                                    key = ("closure:" + cid, str(i))
-                                    if key not in self._closure_params:
-                                        self._closure_params[key] = True
-                                        # reads of _1.<i> in the closure
-                                        self._taint_upvar(g, i)
-                                        changed_callees.add(cid)
-        if 0 in self.t[fid]:
-            self.ret.add(fid)
-        return changed_callees, (fid in self.ret) != ret_before
-
-    def _taint_upvar(self, g, idx):
-        for b in g.blocks:
-            for s in b["stmts"]:
-                if s["k"] != "assign":
-                    continue
-                rv = s["rv"]
-                p = None
-                if rv["k"] in ("use", "cast"):
-                    p = lib.op_place(rv["op"])
-                elif rv["k"] in ("ref", "copy_for_deref"):
-                    p = rv["place"]
-                if p is not None and p["l"] == 1:
-                    for e in (p.get("p") or []):
-                        if isinstance(e, dict) and e.get("of") == "closure" and e.get("f") == idx:
-                            self._mark(g.id, s["dst"]["l"], "captured variable #%d" % idx)
-
-    _enum_cache = {}
 
     def _is_enum(self, adt):
         a = self.fx.adts.get(adt)
@@ -338,9 +158,220 @@ class Taint:
             self._impl_cache = c
         return self._impl_cache.get(trait_item, ())
 
+    # ---------------------------------------------------------------- fixpoint
+    def run(self):
+        fx = self.fx
+        self._closures = {}
+        for f in fx.fns.values():
+            al = {}
+            cl = {}
+            for _, _, s in lib.stmts(f, cleanup=True):
+                if s["k"] == "assign" and s["rv"]["k"] in ("ref", "rawptr") and not s["dst"].get("p") and not s["rv"]["place"].get("p"):
+                    al[s["dst"]["l"]] = s["rv"]["place"]["l"]
+                if s["k"] == "assign" and s["rv"]["k"] == "agg" and s["rv"].get("ak") == "closure" and not s["dst"].get("p"):
+                    cl[s["dst"]["l"]] = (s["rv"]["closure"], s["rv"]["ops"])
+            self.alias[f.id] = al
+            self._closures[f.id] = cl
+            self.o[f.id] = {}
+            for i in range(1, f.argc + 1):
+                if self._carries(f.locals[i]["ty"]):
+                    self.o[f.id][i] = {i}
+        for f in fx.fns.values():
+            for sfx, idx in self.source_params:
+                if lib.pm(f.path, sfx):
+                    self.actual[f.id].add(idx)
+        callers = defaultdict(set)
+        work = deque(fx.fns.keys())
+        inq = set(work)
+        rounds = 0
+        while work:
+            fid = work.popleft()
+            inq.discard(fid)
+            f = fx.fns[fid]
+            self._fields_changed = False
+            ret_before = frozenset(self.o[fid].get(0, ()))
+            touched = self._process(f, callers)
+            for c in touched:
+                if c not in inq:
+                    work.append(c)
+                    inq.add(c)
+            if frozenset(self.o[fid].get(0, ())) != ret_before:
+                for c in callers.get(fid, ()):
+                    if c not in inq:
+                        work.append(c)
+                        inq.add(c)
+            if self._fields_changed:
+                for g in fx.fns:
+                    if g not in inq:
+                        work.append(g)
+                        inq.add(g)
+            rounds += 1
+            if rounds > 400000:
+                raise RuntimeError("taint fixpoint does not converge")
+
+    def _make_actual(self, gid, idx, touched):
+        if idx not in self.actual[gid]:
+            self.actual[gid].add(idx)
+            touched.add(gid)
+
+    def _process(self, f, callers):
+        fid = f.id
+        touched = set()
+        o = self.o[fid]
+        progress = True
+        it = 0
+        while progress and it < 60:
+            progress = False
+            it += 1
+            for b in f.blocks:
+                for s in b["stmts"]:
+                    if s["k"] != "assign":
+                        continue
+                    rv = s["rv"]
+                    k = rv["k"]
+                    tags = set()
+                    if k in ("use", "cast", "repeat"):
+                        tags = self.op_orig(fid, rv["op"])
+                    elif k in ("ref", "rawptr", "copy_for_deref"):
+                        tags = self.place_orig(fid, rv["place"])
+                    elif k == "binop":
+                        if rv["op"] not in ("Eq", "Ne", "Lt", "Le", "Gt", "Ge", "Cmp"):
+                            tags = self.op_orig(fid, rv["l"]) | self.op_orig(fid, rv["r"])
+                    elif k == "unop":
+                        if rv["op"] != "PtrMetadata":
+                            tags = self.op_orig(fid, rv["a"])
+                    elif k == "agg" and rv.get("ak") != "closure":
+                        for i, op in enumerate(rv["ops"]):
+                            ot = self.op_orig(fid, op)
+                            tags |= ot
+                            if rv.get("ak") == "adt" and _workspace(rv["adt"]) and self._eff(fid, ot) and i < len(rv.get("fields", [])):
+                                of = rv["adt"] + ("::" + rv["variant"] if self._is_enum(rv["adt"]) else "")
+                                key = (of, rv["fields"][i])
+                                if key not in self.fields:
+                                    self.fields.add(key)
+                                    self._fields_changed = True
+                                    progress = True
+                    if tags and self._add_place(fid, s["dst"], set(tags), "line %s" % s.get("line")):
+                        progress = True
+                t = b["term"]
+                if t["k"] != "call":
+                    continue
+                pn, fr = lib.callee(t)
+                args_o = [self.op_orig(fid, a) for a in t["args"]]
+                args_e = [self._eff(fid, x) for x in args_o]
+                rid = fr.get("rid") or fr.get("id")
+                res = set()
+                if pn and self._is_source_call(pn):
+                    res = {"S"}
+                elif rid in self.fx.fns and not self._killed(pn):
+                    g = self.fx.fns[rid]
+                    callers[rid].add(fid)
+                    for i, e in enumerate(args_e):
+                        if e and i + 1 <= g.argc:
+                            self._make_actual(rid, i + 1, touched)
+                    rtags = self.o[rid].get(0, ())
+                    for tg in rtags:
+                        if tg == "S":
+                            res.add("S")
+                        elif isinstance(tg, int) and tg - 1 < len(args_o):
+                            res |= args_o[tg - 1]
+                elif "indirect" in fr:
+                    for x in args_o:
+                        res |= x
+                else:
+                    if fr.get("rkind") == "virtual" or (fr.get("trait") and "rid" not in fr):
+                        for im in self._impls(fr["path"]):
+                            callers[im].add(fid)
+                            g = self.fx.fns[im]
+                            for i, e in enumerate(args_e):
+                                if e and i + 1 <= g.argc:
+                                    self._make_actual(im, i + 1, touched)
+                            for tg in self.o[im].get(0, ()):
+                                if tg == "S":
+                                    res.add("S")
+                                elif isinstance(tg, int) and tg - 1 < len(args_o):
+                                    res |= args_o[tg - 1]
+                    killed = self._killed(pn)
+                    if not killed:
+                        for x in args_o:
+                            res |= x
+                    # higher-order std function: labelled arguments reach the closure's parameters, its result the destination
+                    for a in t["args"]:
+                        pa = lib.op_place(a)
+                        cinfo = self._closures[fid].get(pa["l"]) if pa and not pa.get("p") else None
+                        if cinfo and cinfo[0] in self.fx.fns:
+                            cid = cinfo[0]
+                            g = self.fx.fns[cid]
+                            callers[cid].add(fid)
+                            if any(args_e):
+                                for i in range(2, g.argc + 1):
+                                    self._make_actual(cid, i, touched)
+                            if not killed:
+                                for tg in self.o[cid].get(0, ()):
+                                    if tg == "S":
+                                        res.add("S")
+                                    elif isinstance(tg, int) and tg >= 2:
+                                        for x in args_o:
+                                            res |= x
+                    if any(args_e) and pn and any(lib.norm(pn).endswith(m) for m in MUTATORS) and t["args"]:
+                        p0 = lib.op_place(t["args"][0])
+                        if p0 is not None:
+                            tgt = self.alias.get(fid, {}).get(p0["l"], p0["l"])
+                            un = set()
+                            for x in args_o[1:]:
+                                un |= x
+                            if self._add(fid, tgt, un, "mutated by %s line %s" % (lib.norm(pn).rsplit("::", 1)[-1], t.get("line"))):
+                                progress = True
+                if res and self._add_place(fid, t["dst"], res, "result of %s line %s" % (lib.norm(pn or "indirect"), t.get("line"))):
+                    progress = True
+            # closures created here capture labelled locals
+            for l, (cid, ops) in self._closures[fid].items():
+                if cid not in self.fx.fns:
+                    continue
+                for i, op in enumerate(ops):
+                    if self.op_tainted(fid, op) and i not in self._upvars[cid]:
+                        self._upvars[cid].add(i)
+                        self._taint_upvar(self.fx.fns[cid], i)
+                        touched.add(cid)
+        return touched
+
+    def _taint_upvar(self, g, idx):
+        for b in g.blocks:
+            for s in b["stmts"]:
+                if s["k"] != "assign":
+                    continue
+                rv = s["rv"]
+                p = None
+                if rv["k"] in ("use", "cast"):
+                    p = lib.op_place(rv["op"])
+                elif rv["k"] in ("ref", "copy_for_deref"):
+                    p = rv["place"]
+                if p is not None and p["l"] == 1:
+                    for e in (p.get("p") or []):
+                        if isinstance(e, dict) and e.get("of") == "closure" and e.get("f") == idx:
+                            self._add(g.id, s["dst"]["l"], {"S"}, "captured variable #%d" % idx)
+
     # ---------------------------------------------------------------- queries
     def explain(self, fid, l, depth=4):
         return self.why.get((fid, l), "?")
+
+
+class _View:
+    """T.t[fid] -> set of labelled locals (compatibility view)"""
+
+    def __init__(self, T):
+        self.T = T
+
+    def __getitem__(self, fid):
+        return {l for l, tags in self.T.o.get(fid, {}).items() if self.T._eff(fid, tags)}
+
+    def items(self):
+        for fid in self.T.o:
+            yield fid, self[fid]
+
+    def values(self):
+        for fid in self.T.o:
+            yield self[fid]
 
 
 def guarded_nonzero(fn, bi, op):
